@@ -118,11 +118,11 @@ struct Reg
       for (int task = 0; task < 2; task++) {
         std::string name = std::string(task ? "task_" : "thread_") + s;
         // quick: scripts up to 3 at bound 2; thorough: short scripts bound 4, length-4 scripts bound 3
-        int bq = lng ? -1 : (s.size() <= 2 ? 3 : 2);
-        int bt = lng ? 3 : 4;
+        int bq = lng ? -1 : (s.size() <= 2 ? 4 : 3);
+        int bt = lng ? 4 : (s.size() <= 2 ? 6 : 5);
         if (task) {  // three threads (controller, worker, loop): one level less
-          bq = lng ? -1 : 2;
-          bt = lng ? 2 : 3;
+          bq = lng ? -1 : 3;
+          bt = lng ? 3 : (s.size() <= 2 ? 5 : 4);
         }
         new McRegister(strdup(name.c_str()), scenario_entry, bq, bt, 6000);
       }
